@@ -382,6 +382,28 @@ def eval_mutated(case):
     o = Outcome()
     base = case['base']
     s_ = base
+    if case.get('upper'):
+        # letter-case variants of a valid helper string: the statement promises any letter case for names only, so a
+        # variant may be rejected (ValueError) - but if it is accepted it must mean what the lower-case form means
+        s_ = ''.join(c.upper() if i in case['upper'] else c for i, c in enumerate(base))
+        want = [str(x) for x in AnsiString('x', base).ansi_settings_at(0)]
+        for nm, fn in (('constructor', lambda: AnsiString('x', s_)), ('AnsiStr', lambda: AnsiStr('x', s_)),
+                       ('apply_formatting', lambda: AnsiStr('x').apply_formatting(s_)), ('list', lambda: AnsiString('x', [s_]))):
+            try:
+                got = [str(x) for x in fn().ansi_settings_at(0)]
+            except ValueError:
+                o.label('case-variant-rejected')
+                continue
+            except Exception as e:
+                if lib_frame(e)[0] != 'lib':
+                    raise
+                o.fail('mutated-wrong-error', '%r via %s raised %s' % (s_, nm, type(e).__name__))
+                continue
+            o.label('case-variant-accepted')
+            if got != want:
+                o.fail('case-variant-means-something-else', '%r via %s reports %r; %r reports %r' % (s_, nm, got, base, want))
+        o.nontrivial = s_ != base
+        return o
     for pos, ch in case['edits']:
         pos = pos % (len(s_) + 1)
         if ch is None:
@@ -426,7 +448,10 @@ def strat_mutated():
     base = st.sampled_from(['rgb(1,2,3)', 'bg_rgb(0x10,32,99)', 'ul_rgb(0xABCDEF)', 'dul_rgb([1,2,3])', 'fg_rgb((7,8,9))', 'color256(17)',
                             'bg_colour256(0x10)', 'ul_color256([5])', 'rgb(255,255,255)', 'dul_colour256(200)'])
     edit = st.tuples(st.integers(0, 30), st.sampled_from(['x', ')', '(', ',', '1', 'g', ']', '[', '0', 'f', '_', None, None]))
-    return st.fixed_dictionaries({'base': base, 'edits': st.lists(edit, min_size=1, max_size=2).map(lambda l: [list(x) for x in l])})
+    edited = st.fixed_dictionaries({'base': base, 'edits': st.lists(edit, min_size=1, max_size=2).map(lambda l: [list(x) for x in l])})
+    cased = st.fixed_dictionaries({'base': base, 'edits': st.just([]),
+                                   'upper': st.one_of(st.just(list(range(12))), st.lists(st.integers(0, 11), min_size=1, max_size=4, unique=True).map(sorted))})
+    return gen.weighted((5, edited), (1, cased))
 
 
 # ---------------------------------------------------------------- spellings inside a history
